@@ -174,7 +174,7 @@ func render(id string) (string, error) {
 	}
 	w := &limitWriter{limit: 1 << 16}
 	err := f().Render(context.Background(), w)
-	if errors.Is(err, errLimit) {
+	if errors.Is(err, errLimit) || errors.Is(err, lib.ErrLimit) {
 		return "DIVERGED", nil
 	}
 	if err != nil {
